@@ -72,6 +72,21 @@ AcceptStatic(e) ==
      /\ Fits(ConvR(MaxV(e.A), LF(e.A), LF(e.B)), e.B)
      /\ Fits(ConvR(MinV(e.A), LF(e.A), LF(e.B)), e.B)
 
+\* type aliases of src/types.rs (growth G04): the alias named I<i>F<f> / U<i>F<f> is the signed / unsigned type with
+\* f fractional bits and i + f bits in all.  e.name holds the code points of the alias name.
+AcceptAlias(e) ==
+  LET n   == e.name
+      pF  == CHOOSE i \in 2..Len(n) : n[i] = 70                           \* the 'F'
+      dec(ds) == FoldLeft(LAMBDA acc, d : 10 * acc + (d - 48), 0, ds)
+      ib  == SubSeq(n, 2, pF - 1)
+      fb  == SubSeq(n, pF + 1, Len(n))
+  IN /\ n[1] \in {73, 85}
+     /\ \E i \in 2..Len(n) : n[i] = 70
+     /\ ib # <<>> /\ fb # <<>> /\ \A i \in 1..Len(ib) : ib[i] \in 48..57
+     /\ \A i \in 1..Len(fb) : fb[i] \in 48..57
+     /\ e.L = <<IF n[1] = 73 THEN 1 ELSE 0, dec(ib) + dec(fb), dec(fb)>>
+     /\ e.ibits = dec(ib) /\ e.fbits = dec(fb)                             \* INT_NBITS / FRAC_NBITS constants
+
 (* ------------------------------ C05 ------------------------------------ *)
 AcceptF2X(e) ==
   LET fl == FDec(ZJ(e.fb), e.ft)  L == e.B
@@ -184,6 +199,7 @@ Accept(e, P) ==
     [] e.k = "from"  -> AcceptFrom(e)
     [] e.k = "impl"  -> AcceptImpl(e)
     [] e.k = "static" -> AcceptStatic(e)
+    [] e.k = "alias" -> AcceptAlias(e)
     [] e.k = "f2x"   -> AcceptF2X(e)
     [] e.k = "x2f"   -> AcceptX2F(e)
     [] e.k = "codec" -> AcceptCodec(e)
